@@ -255,8 +255,8 @@ def d2_plan(tier, fam):
                 ids = [cid(m, n % 12, 0) for n, m in enumerate(short)]
                 desc = 'property histories: every sequence of <= 3 calls over {set attr 1/2 to one of 4 values, remove attr 1/2, nothing} on each of 4 element kinds (%d), library configuration cycled' % len(short)
             else:
-                ids = [cid(m, cfg, 0) for m in short for cfg in range(12)] + [cid(m, n % 12, 0) for n, m in enumerate(long_)]
-                desc = 'property histories: every sequence of <= 3 calls (11-op alphabet) on each of 4 element kinds x all 12 library configurations, plus every sequence of exactly 4 calls with the configuration cycled'
+                ids = [cid(m, cfg, 0) for m in short + long_ for cfg in range(12)]
+                desc = 'property histories: every sequence of <= 4 calls over the 11-op alphabet {set attr 1/2 to one of 4 values, remove attr 1/2, nothing} on each of 4 element kinds (%d) x all 12 library configurations' % len(members)
         elif tier == 'quick':
             if kind == 'bigpolygon':
                 members = [m for m in members if m in ((1, 0, 0), (3, 1, 1))]
@@ -372,6 +372,10 @@ def main():
         out.emit({'type': 'internal_error', 'text': 'gds_codec self-test failed: %r' % (e,)})
         out.emit({'type': 'done', 'wall_s': time.time() - T0, 'deadline_hit': False})
         sys.exit(2)
+    # private copy of the driver: a concurrent ./check C03 against another tree deletes older C03-* binaries
+    exe = os.path.join(scratch, 'gds_driver')
+    shutil.copy2(a.exe, exe)
+    a.exe = exe
     fam = json.loads(subprocess.run([a.exe, '--family'], stdout=subprocess.PIPE, check=True).stdout)
     dims = {k['kind']: [d['name'] for d in k['dims']] for k in fam['kinds']}
     plans = d1_plans(a.tier) + d2_plan(a.tier, fam)
